@@ -302,6 +302,25 @@ def _c01_jobs(tier):
     return jobs
 
 
+CHECKS["C14"] = {
+    "level": "model_checking",
+    "technique": "stateless deviation-bounded exploration of segmentation over an exhaustively generated multipart body space with a ground-truth oracle, on the real streaming parser",
+    "level_text": "gen_mpart emits bodies together with the parts they encode: boundaries {BB, b, -x-}, 0-2 parts (3 in thorough), names {a, a\"b (escaped), empty}, optional filename, "
+                  "optional part Content-Type, content = every string of length <= 3 over {CR, LF, -, x} plus near-boundary texts (contents that would contain a real delimiter are "
+                  "excluded as not well-formed), preamble/epilogue on/off, CRLF or LF line ends (27.9k bodies). Each body is fed to htp_mpartp_parse()/finalize() whole, with every single "
+                  "cut, every pair of cuts within 8 bytes (quick) / all pairs and all triples on bodies <= 70 bytes (thorough), and 1-/2-byte delivery; every chunk lives in an exact-size "
+                  "heap block. Oracle: reported TEXT/FILE parts (type, name, file name, content type, value or FILE_DATA bytes, order) equal the generator structure byte for byte, and flags "
+                  "and parts are identical for every chunking. Binding slice: two-part bodies through a real request, every cut inside the body, text parts == tx->request_params.",
+    "level_note": "An empty part value reported as NULL is read as empty. PREAMBLE/EPILOGUE parts are accepted only if such text was sent. In LF mode contents ending in CR are excluded (ambiguous by construction).",
+    "design_ref": "DESIGN.md §6 C14",
+    "rule": "generated bodies x {whole, every single cut, cut pairs, (thorough) triples, 1-/2-byte}; distinct = distinct (flags, parts) results",
+    "bounds": {"quick": "pairs within 8 bytes; ASan pass on single cuts", "thorough": "all pairs, triples on bodies <= 70 bytes, 3-part bodies; ASan pass on pairs within 8"},
+    "mc_explanation": "states = distinct parser results, transitions = parser runs; every run is the real htp_mpartp_parse",
+    "assumptions": ["generator of mc/mpartmc.c defines 'well-formed'"],
+    "jobs": lambda tier: [J("mpartmc", "plain"), J("mpartmc", "asan", ["--pairs", "0"] if tier == "quick" else ["--pair-window", "8", "--triple-max", "0"])],
+}
+
+
 def manifest():
     import json, os
     root = os.path.dirname(os.path.dirname(os.path.abspath(__file__)))
@@ -337,6 +356,7 @@ ENGINES = [
     {"name": "enum_c15", "path": "mc/enum_c15.c", "serves_properties": ["C15"], "kind_free_text": "E3: exhaustive strings x all partitions x decoder lattice through the urlencoded parser vs mc/ref.c"},
     {"name": "enum_c17", "path": "mc/enum_c17.c", "serves_properties": ["C17"], "kind_free_text": "E4+E3: BFS over container op sequences and exhaustive primitive arguments vs reference models"},
     {"name": "faultmc", "path": "mc/faultmc.c", "serves_properties": ["C18"], "kind_free_text": "E5: exhaustive k-th allocation failure enumeration under ASan+UBSan"},
+    {"name": "mpartmc", "path": "mc/mpartmc.c", "serves_properties": ["C14"], "kind_free_text": "E1 on htp_mpartp_parse: generated multipart bodies x cut sets vs generator ground truth"},
     {"name": "cutmc", "path": "mc/cutmc.c", "serves_properties": ["C01", "C02", "C03", "C04", "C06", "C10", "C16"], "kind_free_text": "E1: stateless deviation-bounded explorer of segmentation / generated grammar on the real code"},
 ]
 
